@@ -262,6 +262,7 @@ pub fn alphabet(n: usize, c: &AlphaCfg) -> Vec<Dev> {
             }
         }
     }
+    devs.extend(crate::devs::context_devs());
     devs.extend(crate::devs::syntax_devs(true, false, true, false));
     devs
 }
